@@ -17,7 +17,11 @@ VARIABLE z
 Init == z = [k |-> "start"]
 \* hostile open performatives (limits below what the protocol allows) take the place of the peer's open
 OpenVar == {"openMfs0", "openMfs3", "openMfs4", "openMfs6", "openMfs7", "openMfs8", "openMfs100", "openMfs511", "openChmax0", "openIdle1"}
+\* floods: hundreds of legal frames written back to back (echo requests, dispositions for unknown deliveries, session flows, empty frames) against
+\* an endpoint whose internal channels hold a single frame ("tight": buffer_size 1 on connection and session): it must keep answering and stay usable
+Floods == {"floodEcho", "floodEchoDisp", "floodSessFlow"}
 Next == z.k = "start" /\ \/ \E st \in States, h \in Raw \cup Proto : z' = [k |-> "case", st |-> st, h |-> h]
+                         \/ \E h \in Floods : z' = [k |-> "case", st |-> "tight", h |-> h]
                          \/ \E h \in OpenVar \cup Raw : z' = [k |-> "case", st |-> "header", h |-> h]
 Spec == Init /\ [][Next]_z
 
@@ -25,9 +29,12 @@ PF(perf, ch, f) == [e |-> "PFrame", perf |-> perf, ch |-> ch, f |-> f]
 Flow0 == [nii |-> [seen |-> 0], iw |-> 100, noi |-> 0, ow |-> 100]
 XferF(h, did) == [h |-> h, did |-> did, tagn |-> 1, tag |-> <<did % 250>>, fmt |-> 0, settled |-> "t", more |-> FALSE]
 Msg(m) == [m |-> m, len |-> 20, shape |-> "data"]
-ClientOpen == << [e |-> "AOpen", cfg |-> [mfs |-> 4096]], [e |-> "PHeader", kind |-> "amqp"], PF("open", 0, [mfs |-> 4096, chmax |-> 10]) >>
-ListenerOpen == << [e |-> "AAccept", cfg |-> [mfs |-> 4096]], [e |-> "PHeader", kind |-> "amqp"], PF("open", 0, [mfs |-> 4096, chmax |-> 10]) >>
-Begin == IF Side = "client" THEN << [e |-> "ABegin", s |-> "s1", cfg |-> [noi |-> 1000, iw |-> 3, ow |-> 100]], PF("begin", 3, [rch |-> [ref |-> "s1"], noi |-> 0, iw |-> 100, ow |-> 100]) >>
+Tight == z.k = "case" /\ z.st = "tight"
+ClientOpen == << [e |-> "AOpen", cfg |-> IF Tight THEN [mfs |-> 4096, buf |-> 1] ELSE [mfs |-> 4096]], [e |-> "PHeader", kind |-> "amqp"], PF("open", 0, [mfs |-> 4096, chmax |-> 10]) >>
+ListenerOpen == << [e |-> "AAccept", cfg |-> IF Tight THEN [mfs |-> 4096, buf |-> 1] ELSE [mfs |-> 4096]], [e |-> "PHeader", kind |-> "amqp"], PF("open", 0, [mfs |-> 4096, chmax |-> 10]) >>
+Begin == IF Tight THEN (IF Side = "client" THEN << [e |-> "ABegin", s |-> "s1", cfg |-> [noi |-> 1000, iw |-> 3, ow |-> 100, buf |-> 1]], PF("begin", 3, [rch |-> [ref |-> "s1"], noi |-> 0, iw |-> 100, ow |-> 100]) >>
+                       ELSE << [e |-> "AAcceptSession", s |-> "s1", cfg |-> [noi |-> 1000, iw |-> 3, ow |-> 100, buf |-> 1]], PF("begin", 3, [rch |-> -1, noi |-> 0, iw |-> 100, ow |-> 100]) >>) ELSE
+         IF Side = "client" THEN << [e |-> "ABegin", s |-> "s1", cfg |-> [noi |-> 1000, iw |-> 3, ow |-> 100]], PF("begin", 3, [rch |-> [ref |-> "s1"], noi |-> 0, iw |-> 100, ow |-> 100]) >>
          ELSE << [e |-> "AAcceptSession", s |-> "s1", cfg |-> [noi |-> 1000, iw |-> 3, ow |-> 100]], PF("begin", 3, [rch |-> -1, noi |-> 0, iw |-> 100, ow |-> 100]) >>
 Sender == IF Side = "client"
           THEN << [e |-> "AAttachS", l |-> "L1", s |-> "s1", cfg |-> [snd |-> 1, rcv |-> 0, idc |-> 0]], PF("attach", 3, [name |-> "L1", h |-> 5, role |-> "r", snd |-> 1, rcv |-> 0]),
@@ -41,14 +48,22 @@ MidXfer == << [e |-> "PFrame", perf |-> "transfer", ch |-> 3, f |-> [h |-> 6, di
 Prefix(st) == IF st = "header" THEN SubSeq(IF Side = "client" THEN ClientOpen ELSE ListenerOpen, 1, 2) ELSE
               (IF Side = "client" THEN ClientOpen ELSE ListenerOpen)
               \o (IF st = "open" THEN <<>> ELSE Begin)
-              \o (IF st \in {"sender", "receiver", "midxfer", "closing"} THEN Sender ELSE <<>>)
+              \o (IF st \in {"sender", "receiver", "midxfer", "closing", "tight"} THEN Sender ELSE <<>>)
               \o (IF st \in {"receiver", "midxfer", "closing"} THEN Receiver ELSE <<>>)
               \o (IF st = "midxfer" THEN MidXfer ELSE <<>>)
               \o (IF st = "closing" THEN <<[e |-> "AClose", err |-> ""]>> ELSE <<>>)
 HdrOv(perf, ch, f, hdr) == [e |-> "PFrame", perf |-> perf, ch |-> ch, f |-> f, hdr |-> hdr]
 FlowS == [nii |-> 1000, iw |-> 100, noi |-> 0, ow |-> 100]
+EchoFlow == [e |-> "PFrame", perf |-> "flow", ch |-> 3, ech |-> 0, nosettle |-> TRUE, f |-> [nii |-> [seen |-> 0], iw |-> 100, noi |-> 0, ow |-> 100, h |-> 5, dc |-> [seen |-> 0], lc |-> 50, echo |-> TRUE]]
+SessEcho == [e |-> "PFrame", perf |-> "flow", ch |-> 3, ech |-> 0, nosettle |-> TRUE, f |-> [nii |-> [seen |-> 0], iw |-> 100, noi |-> 0, ow |-> 100, echo |-> TRUE]]
+DispUnk == [e |-> "PFrame", perf |-> "disposition", ch |-> 3, nosettle |-> TRUE, f |-> [role |-> "r", first |-> 5000, last |-> 5003, settled |-> FALSE, state |-> [k |-> "released", cond |-> "", txn |-> <<>>]]]
+RECURSIVE Rep(_, _)
+Rep(n, seq) == IF n = 0 THEN <<>> ELSE seq \o Rep(n - 1, seq)
 Hostile(h) ==
-  CASE h = "size0" -> <<[e |-> "PRaw", tag |-> h, b |-> <<0,0,0,0, 2,0,0,0>>]>>
+  CASE h = "floodEcho" -> Rep(400, <<EchoFlow>>)
+    [] h = "floodEchoDisp" -> Rep(300, <<EchoFlow, EchoFlow, EchoFlow, DispUnk>>)
+    [] h = "floodSessFlow" -> Rep(300, <<SessEcho, DispUnk>>)
+    [] h = "size0" -> <<[e |-> "PRaw", tag |-> h, b |-> <<0,0,0,0, 2,0,0,0>>]>>
     [] h = "size3" -> <<[e |-> "PRaw", tag |-> h, b |-> <<0,0,0,3, 2,0,0,0>>]>>
     [] h = "size4" -> <<[e |-> "PRaw", tag |-> h, b |-> <<0,0,0,4>>]>>
     [] h = "size7" -> <<[e |-> "PRaw", tag |-> h, b |-> <<0,0,0,7, 2,0,0>>]>>
@@ -98,7 +113,7 @@ Hostile(h) ==
     [] h = "detachUnattached" -> <<PF("detach", 3, [h |-> 88, closed |-> TRUE, err |-> ""])>>
     [] h = "flowBadRole" -> <<PF("flow", 3, [nii |-> 1000, iw |-> 100, noi |-> 0, ow |-> 100, h |-> 6, dc |-> 0, lc |-> 5, drain |-> TRUE])>>
 \* the probe: ordinary use afterwards; every call must return
-Probe(st) == (IF st \in {"sender", "receiver", "midxfer"} THEN <<[e |-> "ASend", l |-> "L1", m |-> 1, len |-> 20, settled |-> TRUE]>> ELSE <<>>)
+Probe(st) == (IF st \in {"sender", "receiver", "midxfer", "tight"} THEN <<[e |-> "ASend", l |-> "L1", m |-> 1, len |-> 20, settled |-> TRUE]>> ELSE <<>>)
              \o (IF st = "header" THEN <<[e |-> "ABegin", s |-> "s1", cfg |-> [noi |-> 1000, iw |-> 3, ow |-> 100]]>> ELSE <<>>)
              \o (IF st = "closing" THEN <<>> ELSE <<[e |-> "AClose", err |-> ""]>>) \o <<PF("close", 0, [err |-> ""]), [e |-> "PEof"]>>
 Emit == z.k = "start" \/ PrintT(<<"SCRIPT", ToJson([side |-> Side, id |-> <<Side, z.st, z.h>>, final_ms |-> 60000, ev |-> Prefix(z.st) \o Hostile(z.h) \o Probe(z.st)])>>)
